@@ -227,7 +227,14 @@ func (r *runner) phase(root string, depth int, acked *model.Shard, inflight *sto
 				}
 			}
 			if len(args) > 1 {
-				desc += fmt.Sprint(" ", args[1])
+				// a second path (rename target) is logged relative to the store as well
+				if s, ok := args[1].(string); ok && filepath.IsAbs(s) {
+					if rel, err := filepath.Rel(root, s); err == nil {
+						desc += " " + rel
+					}
+				} else {
+					desc += fmt.Sprint(" ", args[1])
+				}
 			}
 		}
 		run.Logf("%s ev%d %s", label, evN, desc)
